@@ -2,6 +2,7 @@ import M3d.Lemmas.ConcDcl
 import M3d.Lemmas.ConcPatterns
 import M3d.Lemmas.ConcQuery
 import M3d.Lemmas.ConcIter
+import M3d.Lemmas.ConcDerive
 import M3d.Lemmas.ConcCollect
 import M3d.Lemmas.ConcStrided
 import M3d.Gen.ConcFacts
@@ -588,6 +589,115 @@ theorem iterate_shared_list_racy :
     (run p (structInit 123) (alone s 0)).mem (ILOG 0) = 123 := by
   decide
 
+/-! ### Deriving a solid from a shared union: `JoinedSolid.Optimize` (model3d, model2d) -/
+
+/-- **`Optimize()` and queries of one union do not disturb each other.**  Any number of goroutines
+use one `JoinedSolid` with part list `s` and `n` parts: goroutine `t` either derives an optimized
+solid (`grp t = some g`: it groups, with the permutation `g`, the copy of the list that its call
+made, `append([]Solid{}, j...)`, and builds the hierarchy from that copy), or runs a query
+(`grp t = none`: `Contains` / `Min` / `Max`) that loads the parts one by one from the shared list —
+it may stay inside a part's `Contains` (user code) for any time between two loads — and folds
+their answers with `acc t`.  Under every schedule, in particular with a query parked inside a
+part while other goroutines run complete `Optimize()` calls: no data race; the part list is
+unchanged; every query that has returned returned the fold of `acc t` over the parts
+`nth s 0, …, nth s (n-1)` — for `Contains`: whether some part contains the point, the answer of
+sequential use —; and every `Optimize()` that has returned built its hierarchy from `g s`. -/
+theorem optimize_private_copy_eq_sequential (grp : Tid → Option (Val → Val)) (nth : Val → Nat → Val)
+    (acc : Tid → Val → Val → Val) (n : Nat) (s : Val) (sched : Schedule) :
+    let p := unionProg grp nth acc n
+    let c := run p (structInit s) sched
+    raceFreeFrom p (structInit s) sched = true ∧ c.mem PARTS = s ∧
+    (∀ t, grp t = none → done p c t = true →
+      c.mem (UANS t) = (List.range n).foldl (fun a k => acc t a (nth s k)) 0) ∧
+    (∀ t g, grp t = some g → done p c t = true →
+      (c.thr t).out = g s ∧ c.mem (UCOPY t) = g s) := by
+  intro p c
+  have H := owned_state_noninterference iterOwn iterShared iterOwn_disj iterShared_unowned p
+    (unionProg_RO grp nth acc n) (upd Config.init.mem STRUCT s) sched
+  change raceFreeFrom p (structInit s) sched = true ∧
+    (∀ l, iterShared l = true → c.mem l = upd Config.init.mem STRUCT s l) ∧
+    (∀ t, viewOf c t = viewOf (run p (structInit s) (alone sched t)) t ∧
+      ∀ l, iterOwn t l = true → c.mem l = (run p (structInit s) (alone sched t)).mem l) at H
+  obtain ⟨h1, h2, h3⟩ := H
+  have m1 : (structInit s).mem PARTS = s := by simp [structInit, upd, PARTS]
+  -- what a goroutine that has returned computed, from its run alone
+  have solo : ∀ t, done p c t = true →
+      (∀ l, iterOwn t l = true → c.mem l = (interp (p t) ((structInit s).mem, ((structInit s).thr t).out)).1 l) ∧
+      (c.thr t).out = (interp (p t) ((structInit s).mem, ((structInit s).thr t).out)).2 := by
+    intro t ht
+    obtain ⟨hv, hm⟩ := h3 t
+    rw [alone_eq_replicate] at hv hm
+    have S := solo_run p t (fun st hs => stepRO_isPlain _ _ t st (unionProg_RO grp nth acc n t st hs))
+      (structInit s) rfl (sched.count t)
+    have hpceq : (c.thr t).pc = ((run p (structInit s) (List.replicate (sched.count t) t)).thr t).pc := by
+      have := congrArg View.pc hv
+      simpa [viewOf] using this
+    have houteq : (c.thr t).out = ((run p (structInit s) (List.replicate (sched.count t) t)).thr t).out := by
+      have := congrArg View.out hv
+      simpa [viewOf] using this
+    have hdone : (p t).length ≤ (c.thr t).pc := of_decide_eq_true ht
+    have hk : (p t).length ≤ sched.count t := by
+      rw [hpceq, S.1] at hdone
+      exact Nat.le_trans hdone (Nat.min_le_left _ _)
+    have e := S.2
+    rw [List.take_of_length_le hk] at e
+    refine ⟨fun l hl => ?_, ?_⟩
+    · rw [hm l hl]
+      exact congrFun (congrArg Prod.fst e) l
+    · rw [houteq]
+      exact congrArg Prod.snd e
+  refine ⟨h1, ?_, fun t hg ht => ?_, fun t g hg ht => ?_⟩
+  · rw [h2 PARTS (by simp [iterShared, PARTS, FACES])]
+    simp [upd, PARTS]
+  · obtain ⟨hm, _⟩ := solo t ht
+    rw [hm (UANS t) (by simp [iterOwn, UANS])]
+    have hp : p t = unionVisits nth (acc t) PARTS (UANS t) (List.range n) := by
+      simp [p, unionProg, hg, unionQueryThread]
+    have hne : PARTS ≠ UANS t := by
+      simp only [PARTS, UANS, ILOG, STRUCT, ne_eq]
+      exact fun h => absurd h.symm (Nat.ne_of_gt (Nat.add_pos_left (by decide) _))
+    rw [hp, (interp_unionVisits nth (acc t) PARTS (UANS t) hne (List.range n) _ _).1, m1]
+    have m2 : (structInit s).mem (UANS t) = 0 := by
+      simp only [structInit]
+      exact upd_other _ _ (Ne.symm hne)
+    rw [m2]
+  · obtain ⟨hm, ho⟩ := solo t ht
+    have hp : p t = optimizeThread g (UCOPY t) := by simp [p, unionProg, hg]
+    have I := interp_optimizeThread g (UCOPY t) (structInit s).mem ((structInit s).thr t).out
+    rw [m1] at I
+    refine ⟨?_, ?_⟩
+    · rw [ho, hp]; exact I.2
+    · rw [hm (UCOPY t) (by simp [iterOwn, UCOPY]), hp]; exact I.1
+
+/-- Non-vacuity: a union of the parts 3, 2, 1 (the list is the decimal number 321); goroutine 0
+asks for a point that lies in part 1 only and is parked inside its first part while goroutine 1
+runs a complete `Optimize()` (grouping = reversal), then goroutine 2 (another `Contains`) and
+goroutine 0 interleave.  Both queries answer 1, `Optimize()` built its hierarchy from 123. -/
+example :
+    let grp : Tid → Option (Val → Val) := fun t => if t = 1 then some rev3 else none
+    let p := unionProg grp nth3 (fun _ => accIn1) 3
+    let s : Schedule := [0, 0] ++ List.replicate 4 1 ++ [2, 0, 2, 0, 2, 0, 2, 0, 2, 0, 2, 0, 2, 0, 2, 2]
+    let c := run p (structInit 321) s
+    ((List.range 3).all fun t => done p c t) = true ∧
+      c.mem (UANS 0) = 1 ∧ (c.thr 1).out = 123 ∧ c.mem (UANS 2) = 1 ∧ c.mem PARTS = 321 := by
+  decide
+
+/-- **`Optimize()` grouping the union's own slice is not safe**: with `GroupBounders(j)` instead of
+a grouped copy, the *interrupted query* schedule the harness forces — `Contains` of goroutine 0
+parked inside the first part (part 3), goroutine 1 running a complete `Optimize()` that reverses
+the list, goroutine 0 resumed — has a data race on the part list, and goroutine 0 is shown the
+parts 3, 2, 3: part 3 twice, part 1 (the one that contains its point) never.  It answers 0 where
+the same call alone answers 1; the list is left reordered.  Decided by evaluation. -/
+theorem optimize_in_place_racy :
+    let grp : Tid → Option (Val → Val) := fun t => if t = 1 then some rev3 else none
+    let p := unionInPlaceProg grp nth3 (fun _ => accIn1) 3
+    let s : Schedule := [0, 0] ++ List.replicate 4 1 ++ List.replicate 7 0
+    let c := run p (structInit 321) s
+    raceFreeFrom p (structInit 321) s = false ∧ ((List.range 2).all fun t => done p c t) = true ∧
+    c.mem (UANS 0) = 0 ∧ c.mem PARTS = 123 ∧
+    (run p (structInit 321) (alone s 0)).mem (UANS 0) = 1 := by
+  decide
+
 /-! ### One renderer, several calls: `Render`, `RenderVariance`, `RayVariance` -/
 
 /-- **Overlapping calls on one renderer each sample with the configuration they sample with
@@ -831,22 +941,30 @@ theorem facts_updateAt : ConcFacts.updateAt = ["boundsRet", "idx", "readCompareW
 theorem facts_cacheScalarFunc : ConcFacts.cacheScalarFunc = ["decl:sync.Map", "call:Load", "call:Store"] := by
   decide
 
-/-- **No read-only query method writes its receiver.**  Over all 370-odd methods named like the
+/-- **No read-only query method writes its receiver.**  Over all 380-odd methods named like the
 library's query interfaces (`Collider`, `Solid`, the SDF family, `render3d.Object`, `Material`,
-`AreaLight`, mesh queries incl. `Iterate` / `IterateSorted`, and the entry points
-`Render` / `RenderVariance` / `RayVariance` of the exported renderer types) in model2d, model3d, render3d and toolbox3d, the extractor found no
+`AreaLight`, mesh queries incl. `Iterate` / `IterateSorted`, the entry points
+`Render` / `RenderVariance` / `RayVariance` of the exported renderer types, and the read-only
+derivations `Optimize` / `Copy` / `DeepCopy` / `MapCoords`) in model2d, model3d, render3d and
+toolbox3d, the extractor found no
 assignment to memory of the receiver — neither directly, nor through a slice alias of one of its
-fields, nor through another method of the same type.  So the only state a query writes is state
-of its own call: the discipline of `owned_state_noninterference`. -/
+fields, nor through another method of the same type, nor by handing the receiver (a value of a
+slice type), one of its fields or a slice of them to a function of the package that stores into
+the elements of that argument (`GroupBounders`, `GroupTriangles`, … — computed as a fixed point
+over the package's plain functions).  So the only state a query writes is state
+of its own call: the discipline of `owned_state_noninterference` (for `JoinedSolid.Optimize`:
+the program of `optimize_private_copy_eq_sequential`, not that of `optimize_in_place_racy`). -/
 theorem facts_queries_readonly : ConcFacts.queryReceiverWrites = [] := by decide
 
 /-- The query methods the staged-query model stands for are all still found by the extractor
 (so the previous theorem is not vacuous after a refactor). -/
 theorem facts_queries_cover :
     ConcFacts.querySitesSeen =
-      ["model2d.ColliderSolid.Contains", "model2d.JoinedCollider.CircleCollision", "model2d.Mesh.IterateSorted",
+      ["model2d.ColliderSolid.Contains", "model2d.JoinedCollider.CircleCollision",
+       "model2d.JoinedSolid.Contains", "model2d.JoinedSolid.Optimize", "model2d.Mesh.IterateSorted",
        "model3d.ColliderSolid.Contains", "model3d.JoinedCollider.FirstRayCollision",
        "model3d.JoinedCollider.RayCollisions", "model3d.JoinedCollider.SphereCollision",
+       "model3d.JoinedSolid.Contains", "model3d.JoinedSolid.Optimize",
        "model3d.Mesh.IterateSorted",
        "model3d.SolidCollider.RayCollisions", "model3d.colliderSDF.SDF", "model3d.meshSDF.SDF",
        "model3d.profileCollider.FirstRayCollision", "model3d.profileCollider.RayCollisions",
